@@ -75,9 +75,18 @@ except (ValueError, TypeError):
     math_log = math.log
     math_sqrt = math.sqrt
 
-pow = _mathfun_n(operator.pow, lambda x, y: complex(x)**y)
-log = _mathfun_n(math_log, cmath.log)
-sqrt = _mathfun(math_sqrt, cmath.sqrt)
+def _neg_axis_cut(z, below=0.0):
+    # Arguments x < `below` on the real axis lie on the branch cut of sqrt,
+    # log and the powers (below = 0) and of acosh (below = 1). mp has no
+    # signed zeros and continues from above; cmath would take the other
+    # side (the conjugate value) for a negative zero imaginary part.
+    if z.imag == 0 and z.real < below:
+        return complex(z.real, 0.0)
+    return z
+
+pow = _mathfun_n(operator.pow, lambda x, y: _neg_axis_cut(complex(x))**y)
+log = _mathfun_n(math_log, lambda *args: cmath.log(*[_neg_axis_cut(z) for z in args]))
+sqrt = _mathfun(math_sqrt, lambda z: cmath.sqrt(_neg_axis_cut(z)))
 exp = _mathfun_real(math.exp, cmath.exp)
 
 cos = _mathfun_real(math.cos, cmath.cos)
@@ -113,7 +122,7 @@ cosh = _mathfun_real(math.cosh, cmath.cosh)
 sinh = _mathfun_real(math.sinh, cmath.sinh)
 tanh = _mathfun_real(math.tanh, cmath.tanh)
 
-acosh = _mathfun(math.acosh, cmath.acosh)
+acosh = _mathfun(math.acosh, lambda z: cmath.acosh(_neg_axis_cut(z, 1.0)))
 asinh = _mathfun_real(math.asinh, lambda z: cmath.asinh(_imag_axis_cut(z)))
 atanh = _mathfun(math.atanh, lambda z: cmath.atanh(_real_axis_cut(z)))
 
@@ -133,7 +142,7 @@ def _cbrt(x):
         y -= (y*y*y - x)/(3*y*y)
     return y
 
-cbrt = _mathfun(_cbrt, _cbrt)
+cbrt = _mathfun(_cbrt, lambda z: _cbrt(_neg_axis_cut(z)))
 
 def nthroot(x, n):
     r = 1./n
